@@ -214,8 +214,11 @@ class Check:
 
     def add_stream(self, st, relevant=True):
         self.streams.append(st.summary())
+        last_ctx = ""
         for r in st.reqs:
-            self.count(r)
+            if r.startswith("CTX\t") or r.startswith("REG\t") or r.startswith("DESC\t"):
+                last_ctx = r if r.startswith("CTX\t") else last_ctx + r
+            self.count(last_ctx + r if r.startswith("EXEC") else r)
         if relevant:
             for i in st.disagreements[:50]:
                 self.violation("model-vs-implementation",
